@@ -8,6 +8,6 @@ for f in sorted(glob.glob('/verif/evidence/*.json')):
         jsonschema.validate(json.load(open(f)), es)
     except Exception as e:
         ok = False
-        print("INVALID", f, str(e)[:300])
+        print("INVALID", f, str(e).split('\n')[0][:200])
 print("valid" if ok else "PROBLEMS")
 sys.exit(0 if ok else 1)
